@@ -31,7 +31,10 @@ RULE = (
     "three fresh interpreter processes in natural / reversed / rotated record order (process-wide hidden state starts "
     "empty), outcome tables must be equal.  Expressions: selgen.gen_expr must-support grammar (depth "
     "1-3) plus targeted templates over the fields every adapter keeps (text / integer comparisons, helper functions, "
-    "any/all generators, typed matchers) plus deliberately raising ones.  A filter case is non-trivial when the source "
+    "any/all generators, typed matchers; the interpreted-only fields(<type>) helper; helper functions applied to string[] / "
+    "stringlist fields with mixed-case elements) plus deliberately raising ones; sources that interleave two record "
+    "types with different field sets, in both orders; after every purity case case-sensitive follow-up selectors must "
+    "answer on the matched record objects as on a freshly built copy of the pool.  A filter case is non-trivial when the source "
     "holds >= 2 records; it is *discriminating* when the selector keeps some but not all records (counted per adapter, "
     "required > 0); distinct = distinct (adapter, sequence seed, expression, form)."
 )
@@ -83,6 +86,29 @@ TARGETED = [
     'r.b', 'r.f > 1', 'r.d', 'str(r.n) == "1"', 'repr(r.s) == "\'x\'"', 'r.sub.ss == "inner"', 'r.s and r.t', '(r.s or r.t) == "Hello"',
     'True', 'False', 'None', '',
 ]
+# the interpreted-only helper fields(<type name>): the descriptor's fields of that type.  The answer belongs to the record
+# being matched, whatever descriptor the (long-lived) selector object saw first
+FIELDS_EXPR = [
+    'any(f.name == "b" for f in fields("string"))', 'any(f.name == "n" for f in fields("varint"))', 'any(f.name == "s" for f in fields("string"))',
+    'any(f.name == "t" for f in fields("string"))', 'all(f.name != "k" for f in fields("varint"))', 'any(f.name == "ip" for f in fields("net.ipaddress"))',
+    'any(f.name == "l" for f in fields("string[]"))', 'fields("string")', 'fields("varint") and r.n == 1',
+    'any(f.name == "m" for f in fields("varint")) or any(f.name == "k" for f in fields("varint"))',
+]
+# helper functions applied to list fields holding mixed-case elements (default nocase=True lower-cases what it compares)
+LIST_HELPER_EXPR = [
+    'lower(r.l)', 'upper(r.l)', 'lower(r.l) == ["hello"]', '"hello" in lower(r.l)', '"HELLO" in upper(r.l)', 'lower(r.sl) == r.sl',
+    'field_contains(r, ["l"], ["x"])', 'field_contains(r, ["l", "sl"], ["hello"])', 'field_equals(r, ["l"], ["hello"])',
+    'field_equals(r, ["l", "sl"], [["hello"], "x"])', 'field_contains(r, ["l"], ["Hello"], nocase=False)', 'any(lower(x) == "hello" for x in r.l)',
+    'field_contains(r, Type.stringlist, ["hello"])', 'upper(r.sl) and lower(r.l)',
+]
+# case-sensitive questions asked afterwards of the same record objects and of a fresh copy of the pool
+FOLLOWUPS = [
+    '"Hello" in r.l', 'any(x == "HELLO" for x in r.l)', 'any(x != lower(x) for x in r.l)', 'any(x != upper(x) for x in r.l)', '"Hello" in r.sl',
+    'any(x != lower(x) for x in r.sl)', 'r.s == "Hello"', 'r.s != lower(r.s)',
+]
+INTERLEAVE_PAIRS = [("small", "other"), ("flat", "small"), ("other", "flat"), ("nested", "small"), ("small", "main-full")]
+
+TARGETED = TARGETED + FIELDS_EXPR + LIST_HELPER_EXPR
 # expressions that raise on some or all records: both sides must raise alike
 RAISING = [
     'r.n + "x" == 1', 'field_regex(r, ["s"], "(")', 'r.n / 0 == 1', 'r.s < 1', 'undefined_name == 1', 'r.s.upper() == "X"', 'r.n > "a"',
@@ -95,6 +121,8 @@ COLD_FIXED = [
     'field_contains(r, ["s", "t"], ["hello"])', 'field_equals(r, ["s"], ["hello", "x"])', 'field_regex(r, ["s", "t"], "^[Hh]ello")',
     'lower(r.s) == "hello"', 'upper(r.t) == "HELLO"', 'Type.string == "Hello"', 'name(r) == "sel/small"', '"sel/other" in names(r)',
     'has_field(r, "k")', 'any(x == "Hello" for x in r.l)', 'r.n > 2',
+    'any(f.name == "n" for f in fields("varint"))', 'any(f.name == "t" for f in fields("string"))', '"hello" in lower(r.l)',
+    'field_contains(r, ["l", "sl"], ["hello"])',
 ]
 
 
@@ -288,10 +316,16 @@ def _unlink(path):
             pass
 
 
-def build_sequence(ctx, adapter, seed, shape=None):
+def build_sequence(ctx, adapter, seed, shape=None, interleave=None):
     rng = random.Random(seed)
     by = pool_by_shape(rng.randrange(2**40))
     shapes = sorted(s for s in by if s in ctx.state["storable"][adapter])
+    if interleave is not None:
+        a, b = interleave
+        if a not in shapes or b not in shapes:
+            return [], "none"
+        n = rng.randint(6, 10)
+        return [rng.choice(by[(a, b)[i % 2]]) for i in range(n)], "interleaved:%s,%s" % (a, b)
     if shape is not None and shape in shapes:
         return [rng.choice(by[shape]) for _ in range(rng.randint(5, 10))], "homogeneous"
     if not shapes:
@@ -387,6 +421,25 @@ def generate(ctx):
                 yield {"k": "filter", "adapter": adapter, "seq": subseed("c10", "enum", adapter, ei % 7), "expr": e,
                        "ek": "targeted" if ei < len(TARGETED) else "raising"}
             idx += 1
+    # record types with different field sets interleaved, in both orders, x fields() / list-helper expressions
+    for adapter in adapters:
+        if not ADAPTERS[adapter]["multi"]:
+            continue
+        for pi, (a, b) in enumerate(INTERLEAVE_PAIRS):
+            for pair in ((a, b), (b, a)):
+                exprs = FIELDS_EXPR if "main-full" not in pair else LIST_HELPER_EXPR
+                for ei, e in enumerate(exprs):
+                    if ctx.mine(idx):
+                        yield {"k": "filter", "adapter": adapter, "seq": subseed("c10", "interleave", adapter, pi, ei % 3), "interleave": list(pair),
+                               "expr": e, "ek": "fields-helper" if exprs is FIELDS_EXPR else "list-helper"}
+                    idx += 1
+    # helper functions on list fields, followed by case-sensitive questions (purity cases with a fixed expression)
+    for ei, e in enumerate(LIST_HELPER_EXPR + FIELDS_EXPR):
+        for engine in ("interpreted", "compiled"):
+            if ctx.mine(idx):
+                yield {"k": "purity", "pool": subseed("c10", "listpool", ei % 4), "expr": e, "engine": engine,
+                       "ek": "list-helper" if ei < len(LIST_HELPER_EXPR) else "fields-helper", "es": subseed("c10", "listrot", ei)}
+            idx += 1
     # per shard and adapter: sequences of the flat shape with an expression built from a value that occurs in them
     for adapter in adapters:
         for j in range(3):
@@ -445,7 +498,7 @@ def outcome_of(fn):
 
 def run_filter(ctx, case):
     adapter = case["adapter"]
-    seq, kind = build_sequence(ctx, adapter, case["seq"], case.get("shape"))
+    seq, kind = build_sequence(ctx, adapter, case["seq"], case.get("shape"), case.get("interleave"))
     if len(seq) < 2:
         ctx.event("skipped_no_storable_shape:" + adapter)
         return
@@ -620,6 +673,21 @@ def run_purity(ctx, case):
             ctx.violation(None, "the outcome of match depends on history: fresh objects vs " + label,
                           detail=dict(detail, index=i, fresh=fresh_out[i], other=other[i], record=repr(pool[i])[:300]))
             break
+    # a later case-sensitive selector on the same record objects answers as on a fresh copy of the pool
+    copy = build_pool(random.Random(case["pool"]))
+    if [observe.obs_nometa(observe.obs(r)) for r in copy] == [observe.obs_nometa(o) for o in before]:
+        for f in FOLLOWUPS:
+            for fcls in (selector.Selector, selector.CompiledSelector):
+                used = [outcome_of(lambda r=r: fcls(f).match(r)) for r in pool]
+                clean = [outcome_of(lambda r=r: fcls(f).match(r)) for r in copy]
+                ctx.event("followup_comparisons")
+                if used != clean:
+                    i = next(j for j in range(n) if used[j] != clean[j])
+                    ctx.violation(None, "a record that was matched before answers a later selector differently from a fresh copy",
+                                  detail=dict(detail, followup=f, index=i, matched_before=used[i], fresh_copy=clean[i], record=repr(copy[i])[:300]))
+                    break
+    else:
+        ctx.event("followup_skipped_pool_not_reproducible")
     kinds = {o[0] for o in fresh_out}
     truths = {o[1] for o in fresh_out if o[0] == "ok"}
     ctx.event("purity_cases")
@@ -692,6 +760,7 @@ def finish(ctx):
     ev = ctx.events
     ctx.require(ev["compared_ok"] > 0, "no filter case was compared")
     ctx.require(ev["purity_cases"] > 0, "no purity case ran")
+    ctx.require(ev["followup_comparisons"] > 0, "no follow-up comparison against a fresh copy of the pool ran")
     ctx.require(ev["cold_batches"] > 0 and ev["cold_discriminating"] > 0, "the fresh-process order comparison did not run (or had no discriminating expression)")
     ctx.require(ev["wrap:Selector.match"] > 0 and ev["wrap:CompiledSelector.match"] > 0, "the match recorders never ran")
     for a in ADAPTERS:
